@@ -20,7 +20,9 @@
 //   groups (|p|,|q|) = (128,64) [+ (256,160) for n <= 4 and, in thorough, for <= 1 faulty party];
 //   variants (values + schedule policy of sched::Sched::pick): v0 = seeded shares, round-robin baton; v1 = honest shares at
 //   the corners {0, 1, q-1} (sum wraps), reverse round-robin; v2.. = other seeded shares, seeded random baton.
-//   Fault-free: v0..v2 (thorough v0..v5); one faulty party: v0 (thorough v0, v1); two: v0.
+//   Fault-free: v0..v2 (thorough v0..v7); one faulty party: v0, v2 (thorough v0..v3); two: v0, v2.
+//   Honest parties stay alive after Flip and keep calling rbc.Deliver (time-out 0) until all honest parties are done, as the
+//   processes of tests/t-astc*.cc do through later protocol steps / Sync; faulty parties leave when they are done.
 //
 // Oracle (exact): every honest party returns true; its Qual equals the predicted set (all parties minus the disqualified
 // ones above); its output equals  sum_{j in Qual} a_j mod q  with the COMMITTED a_j (steered coins); hence all honest outputs
@@ -179,6 +181,7 @@ static bool run_flip(const Group &G, size_t N, size_t T, const std::vector<int> 
 		return true;
 	};
 	std::vector<int> ret(N, -1);
+	std::vector<bool> finished(N, false);
 	std::vector<std::string> out(N);
 	bool live = sched::run_parties(S, [&](int i) {
 		if (devOf[i] && devOf[i]->kind == K_CRASH_START) return;
@@ -196,6 +199,23 @@ static bool run_flip(const Group &G, size_t N, size_t T, const std::vector<int> 
 			out[i] = dec(a);
 		}
 		catch (Crash &) { ret[i] = -2; }
+		// An honest party stays alive and keeps serving the broadcast layer (r-request/r-answer for stragglers) until every
+		// honest party has finished, like the processes of tests/t-astc*.cc do through the following protocol steps / Sync.
+		// Faulty parties leave as soon as they are done.
+		finished[i] = true;
+		if (!devOf[i])
+		{
+			mpz_t tmp; mpz_init(tmp);
+			while (!S.livelock)
+			{
+				bool all = true;
+				for (size_t j = 0; j < N; j++) if (!devOf[j] && !finished[j]) all = false;
+				if (all) break;
+				size_t l;
+				rbc.Deliver(tmp, l, aiounicast::aio_scheduler_roundrobin, 0);
+			}
+			mpz_clear(tmp);
+		}
 		if (!devOf[i] && err.str().find("reconstructing parties") != std::string::npos) n_recon++;   // statistic only
 		if (getenv("C17_DUMP")) fprintf(stderr, "---- P%d (ret %d, finished at virtual second %ld)\n%s", i, ret[i], (long)(mcenv::vclock - 1700000000), err.str().c_str());
 		mpz_clear(a);
@@ -303,10 +323,15 @@ int main(int argc, char **argv)
 					std::vector<size_t> di(nf, 0);
 					while (true)
 					{
-						int nval = nf == 0 ? (thorough ? 6 : 3) : (thorough && nf == 1 ? 2 : 1);
-						for (int vs = 0; vs < nval; vs++)
+						// variants per number of faulty parties (see header)
+						std::vector<int> variants;
+						if (nf == 0) for (int v = 0; v < (thorough ? 8 : 3); v++) variants.push_back(v);
+						else if (nf == 1) { variants.push_back(0); if (thorough) variants.push_back(1); variants.push_back(2); if (thorough) variants.push_back(3); }
+						else { variants.push_back(0); variants.push_back(2); }
+						for (size_t vi = 0; vi < variants.size(); vi++)
 							for (int gi = 0; gi < 2; gi++)
 							{
+								int vs = variants[vi];
 								if (gi == 1 && !(N <= 4 || (thorough && nf <= 1 && vs == 0))) continue;
 								const Group &G = gi ? G2 : G1;
 								std::string cid = "n" + str(N) + "t" + str(T) + "/F";
